@@ -147,4 +147,9 @@ impl<K: ExpiredKey<E>, E: Expiration, V: Copy> KeyExpTree<K, E, V> {
         let capacity = list.capacity();
         (list, capacity)
     }
+
+    /// The capacity `create_ordered_list` would reserve for its traversal stack on the tree as it is now.
+    pub fn verif_stack_capacity(&self) -> usize {
+        self.height()
+    }
 }
